@@ -12,33 +12,61 @@ import translate  # noqa: E402
 
 PROP = "C11"
 DRIVER = "drv-c11"
-PROOF_MODULES = ["TetlProofs.C11.Props"]
+PROOF_MODULES = ["TetlProofs.C11.Props", "TetlProofs.C11.Ops"]
 HARNESS = "harness/c11.cpp"
 SOURCES = ["include/etl/_chrono/year_month_day.hpp", "include/etl/_chrono/year_month_day_last.hpp",
            "include/etl/_chrono/year_month.hpp", "include/etl/_chrono/year.hpp", "include/etl/_chrono/month.hpp",
-           "include/etl/_chrono/day.hpp", "include/etl/_chrono/weekday.hpp", "include/etl/_chrono/duration.hpp"]
+           "include/etl/_chrono/day.hpp", "include/etl/_chrono/weekday.hpp", "include/etl/_chrono/duration.hpp",
+           "include/etl/_chrono/year_month_weekday.hpp", "include/etl/_chrono/year_month_weekday_last.hpp",
+           "include/etl/_chrono/month_day_last.hpp"]
 RULE = ("civil/days/weekday: every era, century, 4-year and year boundary +-2 days plus seeded random day numbers over the whole "
         "supported range [-12687428, 11248737] (thorough: additionally an in-harness sweep of every day against std::chrono and a "
         "day-by-day walker); ok(): every (y, m in 0..13, d in 0..32) for boundary years; is_leap: every int16 year; month x delta in "
-        "[-40,40], weekday x delta in [-20,20], year_month carry across year ends.  Non-trivial: result differs from the identity/"
+        "[-40,40], weekday x delta in [-20,20], year_month carry across year ends; +/- months and +/- years of year_month, "
+        "year_month_day, year_month_day_last, year_month_weekday, year_month_weekday_last (x + d, d + x, x - (-d), +=, -= on every "
+        "ym_plus / year_plus line): boundary years +-32767, deltas around the multiples of 12 and the largest deltas whose result "
+        "is still a year value, with varying day / weekday / index fields.  Non-trivial: result differs from the identity/"
         "zero answer; distinct = distinct case text.")
 ASSUMPTIONS = ["std::chrono of libstdc++ 12 validates the Lean calendar spec (R2)",
                "the generated model is exactly what gen/translate.py reads from clang-16's AST; translator bugs show up as R1 disagreements"]
 TRUSTED = ["translator gen/translate.py (clang-16 JSON AST -> Lean), validated on every run by running the generated functions against the compiled C++",
-           "CSem.mkDur (duration's converting constructor) and comparison operators of one-field value classes are modelled by hand"]
+           "CSem.mkDur (duration's converting constructor) and comparison operators of one-field value classes are modelled by hand",
+           "translator conventions for the multi-field calendar types: the getters of an aggregate are its projections, "
+           "month_day_last is its month (construction from a month and .month() are the identity), weekday_indexed / weekday_last are "
+           "opaque tokens (w + 8*index / w, chosen by the driver) that the +/- months / years operators can only pass through (any "
+           "other use is rejected by the translator); the harness compares every variant's surviving field with the one put in"]
 SEARCH_CAP = 800000
+# one theorem per generated operator (TetlProofs/C11/Ops.lean): `f args = Spec … ∧ f_ub args = true`
+_OPS_T = ("year_month", "ymd", "ymdl", "ymw", "ymwl")
+
+
+def _ops(dur):
+    return ["Tetl.C11.Props.%s_eq" % n for t in _OPS_T for n in
+            ("%s_plus_%s" % (t, dur), "%s_plus_%s" % (dur, t), "%s_minus_%s" % (t, dur), "%s_add_assign_%s" % (t, dur),
+             "%s_sub_assign_%s" % (t, dur))]
+
+
+OPS_MONTHS, OPS_YEARS = _ops("months"), _ops("years")
 THEOREMS = {
     "civil": ["Tetl.C11.Props.round_trip", "Tetl.C11.Props.succ", "Tetl.C11.Props.anchor", "Tetl.C11.Props.civil_eq_range",
               "Tetl.C11.Props.civil_valid", "Tetl.C11.Props.civil_no_ub", "Tetl.C11.Props.gregorian_forward", "Tetl.C11.Props.gregorian_backward"],
     "days": ["Tetl.C11.Props.round_trip_inv", "Tetl.C11.Props.days_eq_counting"],
     "weekday": ["Tetl.C11.Props.weekday_eq", "Tetl.C11.Props.weekday_no_ub"],
     "ok": ["Tetl.C11.Props.ok_iff"], "is_leap": ["Tetl.C11.Props.is_leap_eq"], "last_day": ["Tetl.C11.Props.last_day_eq"],
-    "month_plus": ["Tetl.C11.Props.month_plus_eq", "Tetl.C11.Props.month_plus_no_ub"], "month_diff": ["Tetl.C11.Props.month_diff_eq"],
-    "ym_plus": ["Tetl.C11.Props.year_month_plus_eq"], "year_plus": ["Tetl.C11.Props.year_plus_eq"],
+    "month_diff": ["Tetl.C11.Props.month_diff_eq"],
+    "month_plus": ["Tetl.C11.Props.month_plus_eq", "Tetl.C11.Props.month_plus_no_ub", "Tetl.C11.Props.months_plus_month_eq",
+                   "Tetl.C11.Props.month_minus_eq", "Tetl.C11.Props.month_add_assign_eq", "Tetl.C11.Props.month_sub_assign_eq"],
+    "ym_plus": ["Tetl.C11.Props.year_month_plus_eq", "Tetl.C11.Props.year_month_plus_no_ub"] + OPS_MONTHS,
+    "year_plus": ["Tetl.C11.Props.year_plus_eq", "Tetl.C11.Props.year_plus_no_ub", "Tetl.C11.Props.year_minus_eq",
+                  "Tetl.C11.Props.years_plus_year_eq", "Tetl.C11.Props.year_add_assign_eq", "Tetl.C11.Props.year_sub_assign_eq"] + OPS_YEARS,
     "wd_plus": ["Tetl.C11.Props.weekday_plus_eq"], "wd_minus": ["Tetl.C11.Props.weekday_minus_eq"],
     "wd_add_assign": ["Tetl.C11.Props.weekday_add_assign_eq"], "wd_sub_assign": ["Tetl.C11.Props.weekday_sub_assign_eq"],
     "wd_diff": ["Tetl.C11.Props.weekday_diff_eq"],
-    "incdec": ["Tetl.C11.Props.month_plus_eq", "Tetl.C11.Props.weekday_plus_eq", "Tetl.C11.Props.weekday_minus_eq"],
+    "incdec": ["Tetl.C11.Props.month_plus_eq", "Tetl.C11.Props.weekday_plus_eq", "Tetl.C11.Props.weekday_minus_eq",
+               "Tetl.C11.Props.weekday_iso_encoding_eq"],
+    "ym_diff": ["Tetl.C11.Props.year_month_diff_eq", "Tetl.C11.Props.year_month_plus_diff", "Tetl.C11.Props.year_month_diff_plus"],
+    "year_diff": ["Tetl.C11.Props.year_diff_eq"],
+    "oks": ["Tetl.C11.Props.year_month_ok_eq", "Tetl.C11.Props.ymdl_ok_eq", "Tetl.C11.Props.month_day_last_ok_eq"],
 }
 
 LO, HI = -12687428, 11248737          # -32767-01-01 .. 32767-12-31
@@ -122,6 +150,38 @@ def generate(tier, seed):
         for m in range(1, 13):
             for k in list(range(-40, 41)) + [-600, 600]:
                 add("ym_plus y=%d m=%d k=%d" % (y, m, k), "ym_plus")
+    # +/- months with varying other fields: every generated variant (year_month, year_month_day, year_month_day_last,
+    # year_month_weekday, year_month_weekday_last; x + d, d + x, x - (-d), +=, -=) is evaluated on each line.  Deltas
+    # around the multiples of 12, and the largest deltas for which the resulting year is still a value of `year`
+    # (|delta| up to 65535 years); day / weekday / index vary so that a dropped or rebuilt field shows.
+    def fields():
+        return (rnd.choice((0, 1, 28, 29, 30, 31, 32, 255, rnd.randint(1, 31))), rnd.choice((0, 1, 2, 3, 4, 5, 6, 6, 7)),
+                rnd.choice((0, 1, 2, 3, 4, 5, 5, 6, 255)))
+
+    byears = [-32767, -32766, -1, 0, 1, 1999, 2020, 32766, 32767]
+    near12 = [-25, -24, -23, -13, -12, -11, -1, 0, 1, 11, 12, 13, 23, 24, 25]
+    for y in byears + [rnd.randint(-32767, 32767) for _ in range(40 if thorough else 12)]:
+        ks = set(rnd.sample(near12, 6))
+        for target in (-32768, -32767, 32767, rnd.randint(-32767, 32767)):      # land in / next to the extreme years
+            ks.add((target - y) * 12 + rnd.randint(-11, 11))
+        for k in sorted(ks):
+            m = rnd.randint(1, 12)
+            if -32768 <= y + (m - 1 + k) // 12 <= 32767 and abs(k) < 2 ** 31 - 1:
+                d, w, i = fields()
+                add("ym_plus y=%d m=%d k=%d d=%d w=%d i=%d" % (y, m, k, d, w, i), "ym_plus")
+    # +/- years: boundary years and the int32 extremes of the delta where the result is defined (none: |delta| <= 65535)
+    for y in byears + [rnd.randint(-32767, 32767) for _ in range(30 if thorough else 10)]:
+        ks = {-1, 0, 1, -32767 - y, -32768 - y, 32767 - y, rnd.randint(-32767, 32767) - y, rnd.randint(-400, 400)}
+        for k in sorted(ks):
+            if -32768 <= y + k <= 32767:
+                d, w, i = fields()
+                add("year_plus y=%d k=%d m=%d d=%d w=%d i=%d" % (y, k, rnd.randint(1, 12), d, w, i), "year_plus")
+    # year_month - year_month: boundary years (the extreme difference 65534 years included), every month pair for a few
+    for y1 in byears:
+        for y2 in byears + [rnd.randint(-32767, 32767)]:
+            for m1, m2 in ([(a, b) for a in range(1, 13) for b in range(1, 13)] if (y1, y2) in ((2020, 1999), (-32767, 32767), (0, 0))
+                           else [(rnd.randint(1, 12), rnd.randint(1, 12)) for _ in range(3)]):
+                add("ym_diff y1=%d m1=%d y2=%d m2=%d" % (y1, m1, y2, m2), "ym_diff")
     for z in sorted(zs):
         if LO + 40 <= z <= HI - 40 and (thorough or z % 3 == 0):
             add("ymw z=%d" % z, "ymw")
@@ -178,22 +238,27 @@ def group_of(case):
 CLAIMED = True
 TECHNIQUE = "Lean 4 proof over a model regenerated from the clang AST on every run (translator) + finite kernel check of one 400-year era + correspondence run"
 LEVEL_TEXT = ("The calendar kernels (civil_from_days, days_from_civil, weekday_from_days, month/year_month/weekday arithmetic, is_leap, "
-              "last_day_of_month, ok) are translated from the clang AST of the current headers into Lean on every run; the theorems "
+              "last_day_of_month, ok) and the whole +/- months / +/- years operator family of year_month, year_month_day, "
+              "year_month_day_last, year_month_weekday, year_month_weekday_last (every operand order, +=, -=; 50 functions), "
+              "year_month - year_month, year - year, iso_encoding are translated from the clang AST of the current headers into Lean on every run; the theorems "
               "(round trip for every day, successor = Gregorian next-day for every day, no signed overflow on the supported range, "
-              "modular month/weekday arithmetic with year carry) are re-checked by Lean's kernel against the regenerated definitions. "
+              "modular month/weekday arithmetic with year carry; one theorem per +/- months / years operator: under the std "
+              "precondition it returns (year/month + delta) with the month normalised into 1..12, the carry in the year and the "
+              "day / weekday / index field unchanged, and its undefined-behaviour obligation holds) are re-checked by Lean's kernel against the regenerated definitions. "
               "The generated functions are also executed against the compiled C++ and std::chrono on ~2e5 inputs per run.")
 LEVEL_NOTE = ("Trusted: Lean kernel + propext/Classical.choice/Quot.sound; gen/translate.py and clang-16's AST; g++-12; libstdc++ chrono "
               "as oracle for the spec. The in-era part of the bijection is a kernel-evaluated finite check over all 146097 days of "
               "an era (decide +kernel, complete domain) of hand-written Nat twins (TetlProofs/C11/EraDefs.lean) of the in-era "
               "formulas; bridge lemmas (Civil.lean) tie the twins to the generated Int definitions, and the proved era decomposition "
-              "lifts the result to all days. A regenerated body of a different shape breaks the bridge (reported as a broken obligation).")
+              "lifts the result to all days. For the multi-field calendar types the translator's conventions are trusted: getters "
+              "are projections, month_day_last is its month, weekday_indexed / weekday_last are opaque tokens that can only be passed "
+              "through; the correspondence run compares every variant (etl, std, generated model, spec) on each ym_plus / year_plus "
+              "line with varying day / weekday / index. The -/-= operators need k != INT32_MIN (x - d is x + -d, in libstdc++ as in "
+              "tetl). A regenerated body of a different shape breaks the bridge (reported as a broken obligation).")
 CORRESPONDENCE_ONLY = ["year_month_weekday <-> sys_days, year_month_weekday::ok, year_month_weekday_last -> sys_days, "
                        "year_month_day_last -> sys_days (ops ymw, ymw_days, ymwl_days): implementation compared with the Lean "
                        "calendar spec and with std::chrono; no generated model / theorem yet",
-                       "ok() of month_day, weekday_indexed, month_weekday, month_weekday_last, year_month, year_month_day_last, "
-                       "month_day_last (op oks); ++/-- of day and year, weekday::iso_encoding, year - year (ops incdec, year_diff): "
-                       "compared with the spec and std::chrono only (++/-- of month and weekday run through the generated "
-                       "month_plus / weekday_plus / weekday_minus)",
-                       "that the +/- months / years operators of year_month_day, year_month_day_last, year_month_weekday, "
-                       "year_month_weekday_last (all operand orders, +=, -=) forward to year_month + months / year + years and keep "
-                       "the day / weekday / index fields: checked by the harness on every ym_plus / year_plus line, not proved"]
+                       "ok() of month_day, weekday_indexed, month_weekday, month_weekday_last (op oks; the ok() of year_month, "
+                       "year_month_day_last, month_day_last on the same lines are generated and proved); ++/-- of day and year (op "
+                       "incdec): compared with the spec and std::chrono only (++/-- of month and weekday run through the generated "
+                       "month_plus / weekday_plus / weekday_minus; iso_encoding and year - year are generated and proved)"]
